@@ -39,6 +39,31 @@ theorem lookup_mem {β : Type} : ∀ (l : List (Expr × β)) (k : Expr) (v : β)
       exact List.mem_cons_self
     · exact List.mem_cons_of_mem _ (lookup_mem t k v h)
 
+/-! ### collect_dependents -/
+
+/-- every entry of the map is a real (operand, consumer) pair -/
+def DepsTruthful (d : Deps) : Prop := ∀ c p, (c, p) ∈ d → c ∈ p.args
+
+theorem collectLoop_truthful : ∀ n stack seen d, DepsTruthful d → DepsTruthful (collectLoop n stack seen d) := by
+  intro n
+  induction n with
+  | zero => intro _ _ d h; exact h
+  | succ n ih =>
+    intro stack seen d h
+    cases stack with
+    | nil => exact h
+    | cons node stack =>
+      unfold collectLoop
+      split
+      · exact ih _ _ _ h
+      · apply ih
+        intro c p hm
+        rcases List.mem_append.mp hm with hm | hm
+        · exact h c p hm
+        · obtain ⟨dep, hdep, heq⟩ := List.mem_map.mp hm
+          cases heq
+          exact hdep
+
 /-! ### rewrite -/
 
 theorem rewriteWith_sound (S : Sem V) (dn : Expr → Option Expr) (up : Expr → Expr → Option Expr)
